@@ -389,11 +389,18 @@ def rule_r4(ctx) -> List[R.Inst]:
     return insts
 
 
+def rule_dep(ctx):
+    """obligations inherited from shared code reached through the call graph (sa/props/deps.py)"""
+    from .deps import dep_insts
+    return dep_insts(ctx, "C17", [FULL_LN], skip_groups=())
+
+
 SPECS = [
     RuleSpec("C17.R1", rule_r1, 6, "A8", "one output note per input note on every path, carrying offset and column; positional row unpack"),
     RuleSpec("C17.R2", rule_r2, 6, "A7", "sorted by time then grouped by column; gap = next - own; length = gap - 'gap'; decision table"),
     RuleSpec("C17.R3", rule_r3, 4, "A3", "works on a deep copy; reassigns only hits and holds, rebuilt by their own classes"),
     RuleSpec("C17.R4", rule_r4, 7, "A2", "lists selected by the note filter = lists rewritten, for every chart class"),
+    RuleSpec("C17.D", rule_dep, 1, "M0", "rules of the shared code (timing engine, list classes, stacker) that the operations of this property reach"),
 ]
 
 META = dict(
